@@ -120,7 +120,10 @@ class Ctx:
         self.level = level
         self.t0 = time.time()
         # a replay must not wipe the run directory that holds the replay file it was given
-        self.rundir = os.path.join(VERIF, "run", pid + ("-replay" if replaying else ""))
+        # runs against another tree (VERIF_REPO, used for seeded changes) must not disturb the run directory and the
+        # evidence file of the real check
+        alt = "" if REPO == "/repo" else "-alt-" + hashlib.sha1(REPO.encode()).hexdigest()[:6]
+        self.rundir = os.path.join(VERIF, "run", pid + alt + ("-replay" if replaying else ""))
         shutil.rmtree(self.rundir, ignore_errors=True)
         os.makedirs(os.path.join(self.rundir, "replay"), exist_ok=True)
         self.states = 0
@@ -307,8 +310,9 @@ class Ctx:
             "coverage": cov, "assumptions": self.assumptions, "wall_s": round(time.time() - self.t0, 2),
             "violations": nviol,
         }
-        os.makedirs(os.path.join(VERIF, "evidence"), exist_ok=True)
-        with open(os.path.join(VERIF, "evidence", f"{self.pid}.json"), "w") as f:
+        evdir = os.path.join(VERIF, "evidence") if REPO == "/repo" else os.path.join(self.rundir, "evidence")
+        os.makedirs(evdir, exist_ok=True)
+        with open(os.path.join(evdir, f"{self.pid}.json"), "w") as f:
             json.dump(ev, f, indent=1)
         shutil.rmtree(os.path.join(self.rundir, "traces"), ignore_errors=True)
         print(f"{self.pid} {self.tier}: evaluations={self.evaluations} distinct_nontrivial={self.nontrivial} "
